@@ -648,3 +648,61 @@ Qed.
 Example abc_marks : mark abc_rules = [(true, false); (false, false); (false, false)]
                  /\ mark_fixed abc_rules = [(true, false); (true, false); (true, false)].
 Proof. split; vm_compute; reflexivity. Qed.
+
+(* ------------------------------------------------------------------ the fuelled rule nullability *)
+(* whenever the evaluation that can tell "never returns" (None) does return, the boolean one agrees, and more
+   fuel never changes an answer *)
+Lemma nullable_opt_sound (rno : nat -> option bool) (rn : nat -> bool) :
+  (forall i b, rno i = Some b -> rn i = b) ->
+  forall e b, nullable_opt rno e = Some b -> nullable rn e = b.
+Proof.
+  intros Hr. induction e using exp_ind'; intros b0; cbn [nullable_opt nullable].
+  - now intros [= <-].
+  - now intros [= <-].
+  - now intros [= <-].
+  - revert b0. induction H as [|x r Hx _ IH]; intros b0; cbn.
+    + now intros [= <-].
+    + destruct (nullable_opt rno x) as [[|]|] eqn:Ex; try discriminate.
+      * rewrite (Hx true eq_refl). cbn. apply IH.
+      * rewrite (Hx false eq_refl). now intros [= <-].
+  - revert b0. induction H as [|x r Hx _ IH]; intros b0; cbn.
+    + now intros [= <-].
+    + destruct (nullable_opt rno x) as [[|]|] eqn:Ex; try discriminate.
+      * rewrite (Hx true eq_refl). now intros [= <-].
+      * rewrite (Hx false eq_refl). cbn. apply IH.
+  - destruct k.
+    + apply IHe.
+    + now intros [= <-].
+    + destruct e; try apply IHe. apply Hr.
+Qed.
+
+Lemma rule_nullable_opt_sound rules : forall fuel i b,
+  rule_nullable_opt fuel rules i = Some b -> rule_nullable fuel rules i = b.
+Proof.
+  induction fuel as [|f IH]; intros i b; cbn [rule_nullable_opt rule_nullable]; [discriminate|].
+  apply nullable_opt_sound. exact IH.
+Qed.
+
+Lemma nullable_opt_mono (r1 r2 : nat -> option bool) :
+  (forall i b, r1 i = Some b -> r2 i = Some b) ->
+  forall e b, nullable_opt r1 e = Some b -> nullable_opt r2 e = Some b.
+Proof.
+  intros Hr. induction e using exp_ind'; intros b0; cbn [nullable_opt]; auto.
+  - revert b0. induction H as [|x r Hx _ IH]; intros b0; cbn; auto.
+    destruct (nullable_opt r1 x) as [[|]|] eqn:Ex; try discriminate.
+    + rewrite (Hx true eq_refl). apply IH.
+    + rewrite (Hx false eq_refl). auto.
+  - revert b0. induction H as [|x r Hx _ IH]; intros b0; cbn; auto.
+    destruct (nullable_opt r1 x) as [[|]|] eqn:Ex; try discriminate.
+    + rewrite (Hx true eq_refl). auto.
+    + rewrite (Hx false eq_refl). apply IH.
+  - destruct k; auto. destruct e; try apply IHe. apply Hr.
+Qed.
+
+Lemma rule_nullable_opt_mono rules : forall f1 f2 i b, f1 <= f2 ->
+  rule_nullable_opt f1 rules i = Some b -> rule_nullable_opt f2 rules i = Some b.
+Proof.
+  induction f1 as [|f1 IH]; intros f2 i b Hle; cbn [rule_nullable_opt]; [discriminate|].
+  destruct f2 as [|f2]; [lia|]. cbn [rule_nullable_opt]. apply nullable_opt_mono.
+  intros j c. apply IH. lia.
+Qed.
